@@ -1,5 +1,4 @@
-SPECIFICATION Spec
-CONSTANT Family <- FamThorough
+SPECIFICATION SpecThorough
 INVARIANT InjectiveIsInjective
 INVARIANT InverseInverts
 INVARIANT MonContCovers
